@@ -420,6 +420,17 @@ func (h *c19dMRT) checkDump(d []c19dMRTRec, apiPeers map[string]c19dAPIPeer, api
 			continue
 		}
 		class := "entries-differ"
+		// project one field away at a time: the field whose removal makes the multisets equal is the one that differs
+		proj := func(l []string, drop int) string {
+			o := make([]string, len(l))
+			for i, e := range l {
+				f := strings.SplitN(e, " ", 4)
+				f[drop] = "_"
+				o[i] = strings.Join(f, " ")
+			}
+			sort.Strings(o)
+			return strings.Join(o, "\n")
+		}
 		switch {
 		case len(g) == 0:
 			class = "prefix-missing"
@@ -427,23 +438,16 @@ func (h *c19dMRT) checkDump(d []c19dMRTRec, apiPeers map[string]c19dAPIPeer, api
 			class = "prefix-not-in-table"
 		case len(g) != len(w):
 			class = "entry-count"
-		default:
-			// same number of entries: name the field that differs on the first differing pair
-			for i := range w {
-				if w[i] != g[i] {
-					fw, fg := strings.SplitN(w[i], " ", 4), strings.SplitN(g[i], " ", 4)
-					switch {
-					case fw[0] != fg[0]:
-						class = "entry-source"
-					case fw[1] != fg[1]:
-						class = "entry-path-id"
-					case fw[2] != fg[2]:
-						class = "entry-originated-time"
-					default:
-						class = "entry-attributes:" + c19dDiffClass(fw[3], fg[3])
-					}
-					break
-				}
+		case proj(w, 0) == proj(g, 0):
+			class = "entry-source"
+		case proj(w, 1) == proj(g, 1):
+			class = "entry-path-id"
+		case proj(w, 2) == proj(g, 2):
+			class = "entry-originated-time"
+		case proj(w, 3) == proj(g, 3):
+			class = "entry-attributes"
+			if len(w) == 1 {
+				class += ":" + c19dDiffClass(strings.SplitN(w[0], " ", 4)[3], strings.SplitN(g[0], " ", 4)[3])
 			}
 		}
 		h.viol("c19d:mrt:rib:"+class, fmt.Sprintf("table dump and ListPath(GLOBAL) differ for %s", k), map[string]any{"phase": phase, "dump": g, "listpath": w})
@@ -497,7 +501,8 @@ func (h *c19dMRT) checkUpdates(data []byte) {
 		if ref.PeerAS != p.conf.AS {
 			h.viol("c19d:mrt:bgp4mp:peer-as", fmt.Sprintf("record carries peer AS %d, the peer is AS %d", ref.PeerAS, p.conf.AS), wit)
 		}
-		if ref.LocalAS != h.globalAS {
+		// a 2-octet field cannot hold a 4-octet AS number: AS_TRANS (what the OPEN of that session carried) is admissible there
+		if ref.LocalAS != h.globalAS && !(!ref.AS4 && h.globalAS > 65535 && ref.LocalAS == bgp.AS_TRANS) {
 			cls := "as4-record"
 			if !ref.AS4 {
 				cls = "2-octet-record"
@@ -614,7 +619,7 @@ func c19dMRTCase(t *testing.T, rec *vlib.Rec, idx int) {
 	h.local = nLocal > 0
 	tableByRotation := r.IntN(4) == 0
 	confs := c19dGenPeers(r, 2+r.IntN(3), h.globalAS, true)
-	rounds := 2 + r.IntN(2)
+	rounds := 2 + r.IntN(3)
 	h.shape = []string{fmt.Sprintf("as=%d policy=%v local=%d rot=%v rounds=%d", h.globalAS, policy, nLocal, tableByRotation, rounds)}
 	for _, c := range confs {
 		h.shape = append(h.shape, c.shape())
@@ -694,7 +699,7 @@ func c19dMRTCase(t *testing.T, rec *vlib.Rec, idx int) {
 			}
 			h.logf("up (late) %s", h.peers[late].conf.Addr)
 		}
-		h.traffic(3 + r.IntN(10))
+		h.traffic(4 + r.IntN(14))
 		if r.IntN(4) == 0 {
 			// session flap at a quiet moment (everything sent so far has been processed)
 			var ups []*c19dPeer
